@@ -114,6 +114,29 @@ static void run_round(uint64_t idx, pv_rng* rng) {
         }
         pv_set_rand_prng();
     }
+    /* "a seed" is whatever the library hands out, by whatever path: restored from a phrase, encrypted and decrypted again, kept
+     * encrypted on disk and decrypted after loading, or just encrypted - each must store to the canonical image of its abstract
+     * value and load again (a check value or padding left stale by one of these paths shows here and nowhere else) */
+    if (idx % 3 == 1) {
+        int how = 2 + (int)((idx / 3) % 4);      /* decoded, crypt-twice, decrypted-copy, encrypted-once */
+        pv_path_mask = g_mask;
+        pv_mseed mp = m; polyseed_data* ps = NULL; const char* hn;
+        if (how < PV_NPATHS) { ps = pv_seed_by_path(rng, &m, how, pv_gen_coin(rng)); hn = pv_path_name[how]; }
+        else { hn = "encrypted-once"; ps = pv_seed_from_model(&m); if (ps) { pv_api_crypt(ps, pv_randn(rng, 2) ? "pass" : "p\xc3\xa4ss \xef\xac\x81"); if (pv_w->nkdf == 1) { uint8_t mk[32]; memcpy(mk, pv_w->kdf[0].key_written, 32); pv_m_crypt(&mp, mk); } else { pv_api_free(ps); ps = NULL; } } }
+        PV_COUNT("evaluations", 1);
+        if (!ps) pv_violation("C06/cannot-obtain-seed", "[%s] %s under mask %u", hn, pv_mseed_str(&m), g_mask);
+        else {
+            uint8_t pi[32]; pv_m_image(&mp, pi);
+            pv_api_store(ps, o);
+            if (memcmp(o, pi, 32)) pv_violation("C06/store-bytes", "[%s] seed %s: store %s, specification %s", hn, pv_mseed_str(&mp), pv_hex(o, 32), pv_hex(pi, 32));
+            else {
+                polyseed_data* t = NULL; int st = pv_api_load(o, &t);
+                if (st != POLYSEED_OK) pv_violation("C06/roundtrip", "[%s] load(store(s)) -> %s", hn, pv_status_name(st));
+                else { const char* mm = pv_seed_mismatch(t, &mp, pv_randn(rng, 2048)); if (mm) pv_violation("C06/roundtrip", "[%s] load(store(s)) differs: %s", hn, mm); else pv_countf(1, "roundtrip.path.%s", hn); pv_api_free(t); }
+            }
+            pv_api_free(ps);
+        }
+    }
     if (idx < 3) pv_sample("roundtrip", "seed %s <-> %s", pv_mseed_str(&m), pv_hex(img, 32));
     free(obase); pv_api_free(s);
 }
